@@ -92,7 +92,8 @@ TStep ==
             /\ UNCHANGED <<svars, dry, lastf, lasto>>
             /\ Note(<< <<"c14_dry_plan_ops", Range(e.ops) = todo>>,
                        <<"c14_dry_plan_order", \A i \in DOMAIN e.ops : Range(e.anc[i]) = PmAnc(e.ops[i])>>,
-                       <<"c14_dry_plan_transformed", e.tpok>>,      \* transform_physical was applied to the returned plan
+                       <<"c14_dry_plan_transformed", e.tpok>>,
+                       <<"c14_output_node_in_returned_plan", e.outin>>,   \* self-contained: the returned output node is a node of the returned plan      \* transform_physical was applied to the returned plan
                        <<"c14_dry_is_dry", dry>> >>)
        [] e.e = "dryend" ->
             \* the dry run returned: nothing happened; the harness now executes the returned plan by itself,
